@@ -31,6 +31,13 @@ func FuzzC15Parse(f *testing.F) {
 	f.Add([]byte("a = /* c\n */ b +"))
 	f.Add([]byte(";\n;x = 1"))
 	f.Add([]byte("x++; y--\nz++"))
+	// hostile constants: a backslash in a quoted string followed by the ends of the ASCII range
+	for _, q := range []string{"\"", "'"} {
+		for _, r := range []string{"\x00", "\x7f", "\x80", "\xff", "~", "\n"} {
+			f.Add([]byte(q + "\\" + r + q))
+			f.Add([]byte(q + "\\" + r))
+		}
+	}
 	f.Fuzz(func(t *testing.T, data []byte) {
 		if len(data) > 4096 {
 			return
